@@ -997,9 +997,26 @@ static uint64_t ts_ns(const struct timespec* ts)
 static int cond_wait_common(pthread_cond_t* c, pthread_mutex_t* m, uint64_t deadline)
 {
     in_rt = 1;
-    if (deadline && nwatch && find_watch(c) >= 0) pmc_deadline(deadline);
+    int watched_timed = deadline && nwatch && find_watch(c) >= 0;
+    if (watched_timed) pmc_deadline(deadline);
     real_munlock(m);
     wake_waiters(W_MUTEX, m, 0);
+    // early timeout right at the block (cost 1): the timed wait on a watched condition variable times out before
+    // any other thread takes another step (a thread parked at a scheduling point in front of the operation that
+    // would have satisfied the waiter stays there).  Without it a deadline can only pass at a focus point of a
+    // running thread, i.e. after that thread has moved on.
+    if (watched_timed && deadline > vclock_ns)
+    {
+        int others = 0;
+        for (int i = 0; i < nrec; ++i)
+            if (i != self && R[i].st == RUNNABLE) ++others;
+        if (others && take_choice(2, CK_FOCUS, 1) == 1)
+        {
+            tracef("%s: timed wait times out at once (early timeout)\n", tname(self));
+            vclock_ns = deadline + 1;
+            wake_passed_deadlines();
+        }
+    }
     block_on(W_COND, c, deadline ? deadline : 0);
     int to = R[self].timedout;
     R[self].timedout = 0;
